@@ -6,6 +6,8 @@ Case kinds (first token):
   dt  drop tracker (ceiling): canAccept/record sequence
   ch  sampler chain: eval (sdk.EvaluateChain via sdktest.RunChain) or exec (mergeChain.Execute)
   tb  table level: real trace tsTable without loops; writes, flushes, merges with an injected sampler
+  cv  traceFragmentCoverage / HasInterior on a segment time range (all Include flags) + the guard a
+      session builds from it resolving a DROP for given trace bounds
   sp  searchPBM as a pure function on a primary-block index (first ids, duplicates across blocks)
   pb  partIter over a real part written through the block writer with primary blocks cut where the
       case says (a trace straddling primary-block boundaries without multi-megabyte payloads)
@@ -225,6 +227,28 @@ def gen_part_layouts(rng):
     return out
 
 
+def gen_coverage(rng):
+    """segment time ranges with all IncludeStart/IncludeEnd combinations; trace bounds placed at
+    end-grace-1 / end-grace / end-grace+1 (and the mirror at the start)"""
+    start = rng.choice([1000, 1000, 0, -500, 10**15])
+    length = rng.choice([1, 2, 3, 20, 21, 22, 1000, 1000, 1000, 86400 * 10**9])
+    end = start + length
+    flags = rng.choice(["10", "10", "10", "11", "01", "00"])
+    grace = rng.choice([0, 1, 10, 10, 10, 50, 499, 500, 501])
+    r = rng.random()
+    if r < 0.04:
+        return "cv z %d %s %d %d %d" % (end, flags, grace, start, start)
+    if r < 0.08:
+        return "cv %d z %s %d %d %d" % (start, flags, grace, start, start)
+    if r < 0.12:
+        end = start - rng.choice([0, 1])
+    mid = start + length // 2
+    tmax = rng.choice([end - grace - 1, end - grace, end - grace + 1, end - grace - 2, mid, end - 1, end])
+    tmin = rng.choice([start + grace - 1, start + grace, start + grace + 1, start + grace + 2, mid, tmax])
+    tmin = min(tmin, tmax)
+    return "cv %d %d %s %d %d %d" % (start, end, flags, grace, tmin, tmax)
+
+
 TIDS = ["a", "ab", "b", "c", "d", "e"]
 
 
@@ -246,6 +270,8 @@ class TableGen:
                 ts = rng.choice([1005, 1990, base + 3 * grace + 7, base - 3 * grace - 7])
             else:
                 ts = base + rng.randint(-(grace // 2), grace // 2) if grace > 1 else base
+                if getattr(self, "tight", False) and rng.random() < 0.7:
+                    ts = base
             ts = max(1000, min(2000, ts))
             self.nsid += 1
             sid = "s%d" % self.nsid if rng.random() < 0.7 else "s%dx" % self.nsid
@@ -259,6 +285,18 @@ class TableGen:
         self.base = {t: rng.choice([1100, 1200, 1210, 1300, 1500, 1500, 1800, 1000 + grace, 2000 - grace, 1003, 1996]) for t in TIDS}
         gapviol = rng.random() < 0.12
         ops = []
+        flags = rng.choice(["10", "10", "10", "11", "11", "01", "00"])
+        if flags != "11" or rng.random() < 0.3:
+            ops.append("I:" + flags)
+        if rng.random() < 0.35:
+            # traces ending exactly grace before the segment end (+-1) / starting grace after its start
+            for t in TIDS:
+                if rng.random() < 0.5:
+                    self.base[t] = rng.choice([2000 - grace - 1, 2000 - grace, 2000 - grace + 1, 1000 + grace - 1,
+                                               1000 + grace, 1000 + grace + 1])
+            self.tight = True
+        else:
+            self.tight = False
         nparts = 0
         for _ in range(rng.choice([2, 2, 3, 3, 4, 5])):
             ops.append("W:" + self.spans(tids, grace, far=gapviol and rng.random() < 0.4))
@@ -352,6 +390,8 @@ def tokens_with_dumps(out):
             ev.append(("W", int(tok[1:])))
         elif tok == "F":
             ev.append(("F",))
+        elif tok == "I":
+            ev.append(("I",))
         elif tok.startswith("M("):
             ev.append(("M", tok))
         else:
@@ -376,7 +416,7 @@ class C13(vlib.Spec):
     theorems = ["Banyan.C13." + t for t in [
         "trace_query_complete", "searchPBM_spec", "trace_query_exact", "trace_query_full_range", "exactFilter_noFalseNegatives",
         "merge_no_sampler_lossless",
-        "resolve_drop_sound", "resolve_keeps_otherwise", "resolve_cancelled_defers", "resolve_drop_no_outside_fragment",
+        "resolve_drop_sound", "resolve_keeps_otherwise", "resolve_cancelled_defers", "resolve_drop_no_outside_fragment", "coverage_exact", "session_drop_inside_segment",
         "revalidate_publish_sound",
         "sampler_fail_open", "chain_drop_needs_valid_verdict", "execute_fail_open",
         "sidx_keep_spec", "sidx_merge_spec", "ceiling_one_way",
@@ -427,7 +467,7 @@ class C13(vlib.Spec):
                 "gr:V1:snapshot_delta_clear", "gr:V0:snapshot_delta_positive", "tb:trace-dropped-whole",
                 "tb:drop-vetoed-by-guard", "tb:lossless-retry-prevalidation", "tb:lossless-retry-introducer",
                 "tb:decide-error-or-panic", "tb:late-part-introduced", "ch:timeout", "ds:panic",
-                "sp:boundary", "pb:trace-straddles-primary-blocks"]
+                "sp:boundary", "pb:trace-straddles-primary-blocks", "cv:drop", "cv:one-past-the-edge"]
         missing = [k for k in need if self.stats.get(k, 0) == 0]
         R.oblige("branch coverage of the generated cases (%d branch kinds)" % len(need), not missing,
                  "never exercised: %s" % missing)
@@ -440,6 +480,7 @@ class C13(vlib.Spec):
         out += [gen_tracker(rng) for _ in range(n * 5 // 100)]
         out += [gen_chain(rng) for _ in range(n * 10 // 100)]
         out += [gen_search(rng) for _ in range(n * 3 // 100)]
+        out += [gen_coverage(rng) for _ in range(n * 6 // 100)]
         pbs = []
         while len(pbs) < n * 8 // 100:
             pbs += gen_part_layouts(rng)
@@ -501,6 +542,36 @@ class C13(vlib.Spec):
                 return ("violation", "searchPBM(%d, %s) = %d skips a primary block that can contain the trace" % (tid, ids, r))
             if r + 1 < len(ids) and ids[r + 1] < tid:
                 return ("violation", "searchPBM(%d, %s) = %d starts before the first block that can contain the trace" % (tid, ids, r))
+            return None
+        if f[0] == "cv":
+            if g.startswith("PANIC"):
+                return ("violation", "coverage computation panicked: " + g[:200])
+            m = re.match(r"cov=(-?\d+),(-?\d+),([01]) int=([01]) (nosession|R (\d) (\S+))$", g)
+            if not m:
+                return ("violation", "unparsable: " + g[:200])
+            known = m.group(3) == "1"
+            grace, tmin, tmax = int(f[4]), int(f[5]), int(f[6])
+            if f[1] == "z" or f[2] == "z":
+                return None if not known else ("violation", "coverage known for a zero time range endpoint")
+            st, en = int(f[1]), int(f[2])
+            first = st if f[3][0] == "1" else st + 1      # first / last instant the segment can hold
+            last = en if f[3][1] == "1" else en - 1
+            want_known = st < en and first <= last
+            if known != want_known:
+                return ("violation", "coverage known=%s, but the segment %s holds %s" % (known, f[1:4], "instants" if want_known else "nothing"))
+            if known and (int(m.group(1)), int(m.group(2))) != (first, last):
+                return ("violation", "coverage [%s,%s] is not the set of instants the segment %s can hold [%d,%d]"
+                        % (m.group(1), m.group(2), f[1:4], first, last))
+            if m.group(6) == "2":
+                self.stats["cv:drop"] += 1
+                if tmin - grace < first or tmax + grace > last:
+                    return ("violation", "Drop confirmed although the widened trace bounds [%d,%d] reach outside the instants "
+                            "[%d,%d] the segment can hold (a fragment may live in the neighbouring segment)"
+                            % (tmin - grace, tmax + grace, first, last))
+            elif m.group(7) == "segment_boundary":
+                self.stats["cv:segment-boundary"] += 1
+                if tmax + grace in (last + 1,) or tmin - grace in (first - 1,):
+                    self.stats["cv:one-past-the-edge"] += 1
             return None
         if f[0] == "pb":
             if g.startswith("PANIC") or g.startswith("ERR"):
@@ -655,6 +726,7 @@ class C13(vlib.Spec):
         if ev is None:
             return ("violation", "unparsable driver output: " + g[:300])
         grace = int(f[3])
+        self.seg = [int(f[1]), int(f[2]), "11"]
         ops = f[4:] + ["O"]
         if len(ev) != len(ops):
             return ("violation", "event count mismatch: %d ops, %d events" % (len(ops), len(ev)))
@@ -665,6 +737,8 @@ class C13(vlib.Spec):
         pending_merge = None
         for op, e in zip(ops, ev):
             q = op.split(":")
+            if q[0] == "I":
+                self.seg[2] = q[1]
             if q[0] == "W":
                 for sp in q[1].split(","):
                     expected.setdefault(sp.split(".")[0], []).append(sp)
@@ -741,6 +815,17 @@ class C13(vlib.Spec):
                 continue
             if not got and want:
                 if tid in droppable:
+                    # a whole-trace drop is only legitimate if no fragment can live in a neighbouring
+                    # segment: the grace-widened bounds must be instants this segment can hold
+                    tss = [int(s.rsplit(".", 1)[1]) for s in spans]
+                    first = self.seg[0] if self.seg[2][0] == "1" else self.seg[0] + 1
+                    last = self.seg[1] if self.seg[2][1] == "1" else self.seg[1] - 1
+                    if min(tss) - grace < first or max(tss) + grace > last:
+                        return ("violation", "trace %s dropped although its widened bounds [%d,%d] reach outside the instants [%d,%d] "
+                                "its segment can hold (a fragment may live in the neighbouring segment)"
+                                % (tid, min(tss) - grace, max(tss) + grace, first, last))
+                    if max(tss) + grace == last or min(tss) - grace == first:
+                        self.stats["tb:drop-at-segment-edge"] += 1
                     expected[tid] = []      # legitimately dropped as a whole
                     self.stats["tb:trace-dropped-whole"] += 1
                     continue
